@@ -1,12 +1,66 @@
-/- Driver operations of property C15 (ops are named "c15.<name>"). Core + Lean.Data.Json only. -/
+/- Driver operations of property C15 (ops are named "c15.<name>"). Core + Lean.Data.Json only.
+
+The operation models themselves are reached through the ops of the properties that own them (c19.*, c17.model,
+c13.rate_chart, c08.convert, c18.copy, c01/c02/c04/c06.denote); C15 adds the relation `≈` of the property
+(`Spec/Perm.lean`) evaluated on rows observed on f(chart) and f(permuted chart), and the tie hypotheses. -/
 import Reamber.Util.Json
+import Reamber.Spec.Perm
 
 open Lean Reamber.J
 
 namespace Reamber.C15
 
-def handle (op : String) (_j : Json) : Except String Json :=
+open Reamber.PermInv
+
+/-- cells on the wire: `null` NaN, `[n, d]` / integer number, `"s"` text, `true/false` -/
+def cellOf? (j : Json) : Except String Cell :=
+  match j with
+  | Json.null => .ok .nan
+  | Json.str s => .ok (.str s)
+  | Json.bool b => .ok (.bool b)
+  | Json.arr _ => do .ok (.num (← ratOf? j))
+  | Json.num _ => do .ok (.num (← ratOf? j))
+  | Json.obj _ => do .ok (.str ("<" ++ (← getStr j "o") ++ ">"))
+
+def rowsOf? (j : Json) (k : String) : Except String (List (List Cell)) := getArr (arrOf? cellOf?) j k
+
+def tpOf? (j : Json) : Except String Analysis.Tp :=
+  match j with
+  | Json.arr #[t, b] => do .ok ⟨← ratOf? t, ← ratOf? b⟩
+  | _ => .error s!"tempo point expected [time, bpm]: {j}"
+
+def svOf? (j : Json) : Except String Analysis.Sv :=
+  match j with
+  | Json.arr #[t, m] => do .ok ⟨← ratOf? t, ← ratOf? m⟩
+  | _ => .error s!"sv expected [time, multiplier]: {j}"
+
+def noteOf? (j : Json) : Except String FullLN.Row :=
+  match j with
+  | Json.arr #[o, c] => do .ok ⟨← ratOf? o, ← intOf? c, none⟩
+  | Json.arr #[o, c, l] => do .ok ⟨← ratOf? o, ← intOf? c, ← optOf? ratOf? l⟩
+  | _ => .error s!"not a note row: {j}"
+
+def handle (op : String) (j : Json) : Except String Json := do
   match op with
+  /- `≈` for multiset-valued results: the rows of a and b are the same multiset -/
+  | "c15.same_rows" =>
+    let a ← rowsOf? j "a"
+    let b ← rowsOf? j "b"
+    .ok (okJson (Json.bool (sameRowsB a b)))
+  /- `≈` for list-valued results (equality of values, row by row) -/
+  | "c15.same_list" =>
+    let a ← rowsOf? j "a"
+    let b ← rowsOf? j "b"
+    .ok (okJson (Json.bool (decide (a = b))))
+  /- the tie hypotheses (`dom`) -/
+  | "c15.dom" =>
+    let bpms ← getArr tpOf? j "bpms"
+    let svs ← getArr svOf? j "svs"
+    let hits ← getArr noteOf? j "hits"
+    let holds ← getArr noteOf? j "holds"
+    .ok (okJson (obj [("tempo_ties_equal", Json.bool (tempoTiesB bpms)),
+                      ("sv_ties_equal", Json.bool (svTiesB svs)),
+                      ("note_ties_equal", Json.bool (noteTiesB (hits.map FullLN.asHit ++ holds)))]))
   | _ => .error s!"unknown op {op}"
 
 end Reamber.C15
